@@ -122,6 +122,17 @@ def check_components(chk, fi: FuncInfo) -> None:
     if popped_names and not pop_facts and w.body and w.body[0] is pop_st:
         # idiom B: current = worklist.pop() first; then every unvisited neighbour must be marked, pushed, recorded
         cur = next(iter(popped_names))
+        if not nb_loops:
+            # the neighbours of the popped vertex are consulted through next(<generator over graph[popped]>, default): one at most
+            for c in ast.walk(w):
+                if isinstance(c, ast.Call) and astq.callee_name(c) == "next" and c.args:
+                    gen = c.args[0]
+                    if isinstance(gen, ast.Name):
+                        d = [x for _, x in astq.assignments(w, gen.id) if x is not None]
+                        gen = d[0] if len(d) == 1 else gen
+                    if isinstance(gen, (ast.GeneratorExp, ast.ListComp)) and len(gen.generators) == 1 and norm(gen.generators[0].iter) == f"graph[{cur}]":
+                        chk.violation("components-walk", fi.site(c), f"pop-first walk: `{norm(c)[:80]}` hands out at most ONE unvisited neighbour of the vertex that was just popped; the vertex is gone from the worklist, so its other unvisited neighbours are reached only by luck and a branching group of crossing stems is split into several components", K(fi, "walk"))
+                        return
         if len(nb_loops) != 1 or norm(nb_loops[0].iter) != f"graph[{cur}]" or not isinstance(nb_loops[0].target, ast.Name):
             chk.error("components-walk", fi.site(w), "pop-first walk: loop over the neighbours of the popped vertex not found")
             return
@@ -263,6 +274,16 @@ def check_permutation_greedy(chk, fi: FuncInfo) -> None:
         if not sources:
             chk.error("greedy-perms", fi.site(pl), f"`{pl.iter.id}` is not bound inside the component loop")
             return
+    # a conditional expression offers either of its arms
+    flat = []
+    todo = list(sources)
+    while todo:
+        x = todo.pop(0)
+        if isinstance(x, ast.IfExp):
+            todo[:0] = [x.body, x.orelse]
+        else:
+            flat.append(x)
+    sources = flat
     all_ok = True
     for src in sources:
         if isinstance(src, ast.Call) and astq.dotted(src.func) in ("itertools.permutations", "permutations"):
